@@ -3,6 +3,7 @@ package j5convert
 import (
 	"errors"
 	"fmt"
+	"math"
 	"unicode"
 
 	"buf.build/gen/go/bufbuild/protovalidate/protocolbuffers/go/buf/validate"
@@ -511,6 +512,26 @@ func buildFieldType(ww *conversionVisitor, node sourcewalk.FieldNode) (*descript
 
 			if st.Integer.Rules.ExclusiveMaximum != nil && !(*st.Integer.Rules.ExclusiveMaximum) && st.Integer.Rules.Maximum == nil {
 				return nil, fmt.Errorf("integer rules: exclusive maximum requires maximum to be set")
+			}
+
+			// a bound the field's type cannot hold would wrap around in the
+			// narrowing conversions below (maximum 2147483648 on INT32 became
+			// lte: -2147483648)
+			var lowest, highest int64
+			switch st.Integer.Format {
+			case schema_j5pb.IntegerField_FORMAT_INT32:
+				lowest, highest = math.MinInt32, math.MaxInt32
+			case schema_j5pb.IntegerField_FORMAT_UINT32:
+				lowest, highest = 0, math.MaxUint32
+			case schema_j5pb.IntegerField_FORMAT_UINT64:
+				lowest, highest = 0, math.MaxInt64
+			default:
+				lowest, highest = math.MinInt64, math.MaxInt64
+			}
+			for _, bound := range []*int64{st.Integer.Rules.Minimum, st.Integer.Rules.Maximum} {
+				if bound != nil && (*bound < lowest || *bound > highest) {
+					return nil, fmt.Errorf("integer rules: bound %d is out of range for %v", *bound, st.Integer.Format)
+				}
 			}
 
 			rules := &validate.FieldConstraints{}
